@@ -163,10 +163,10 @@ pub fn nav<S: Src, const MUT: bool, const N: usize>(s: &mut S) {
     check!(s, in_l == (side == 1), "C11:left() addresses exactly the entries whose next bit is 0");
     check!(s, in_r == (side == 2), "C11:right() addresses exactly the entries whose next bit is 1");
     if let Some(x) = l {
-        check!(s, x.virt.is_none() && x.idx != loc.idx && sub[loc.idx][x.idx], "C14:left view lies strictly inside the consumed view");
+        check!(s, x.virt.is_none() && sub[loc.idx][x.idx] && (loc.virt.is_some() || x.idx != loc.idx), "C14:left view lies inside the consumed view (strictly below a node view)");
     }
     if let Some(x) = rr {
-        check!(s, x.virt.is_none() && x.idx != loc.idx && sub[loc.idx][x.idx], "C14:right view lies strictly inside the consumed view");
+        check!(s, x.virt.is_none() && sub[loc.idx][x.idx] && (loc.virt.is_some() || x.idx != loc.idx), "C14:right view lies inside the consumed view (strictly below a node view)");
     }
     if let (Some(a), Some(b)) = (l, rr) {
         check!(s, !sub[a.idx][b.idx] && !sub[b.idx][a.idx], "C14:the two sides are disjoint");
